@@ -272,8 +272,15 @@ func (m *Machine) rtIntrinsic(name string, fn *ssa.Function, args []Value, k fun
 		site := m.constInt(args[0], "nondet site")
 		n := m.constInt(args[1], "Choose bound")
 		v := m.nondet(site, 64)
-		m.assume(tt.Cmp("bvult", v, tt.BV(64, uint64(n))))
-		k(tt.BV(64, uint64(m.forkIndex(v, n))))
+		d, seen := m.chosen[v] // the same (site, occurrence) in the second world: same value
+		if !seen {
+			d = m.forkFree(v, n)
+			m.chosen[v] = d
+		}
+		if d >= n {
+			panic(pathAbort{"infeasible", "Choose bound differs between worlds"})
+		}
+		k(tt.BV(64, uint64(d)))
 	case "Assume":
 		c := args[0].(*Term)
 		if !m.branchAssume(c) {
@@ -346,7 +353,7 @@ func (m *Machine) branchAssume(c *Term) bool {
 		m.assume(c)
 		return true
 	}
-	if m.sol.CheckWith(c) == Unsat {
+	if m.check(c) == Unsat {
 		m.decided = append(m.decided, 0)
 		return false
 	}
@@ -436,7 +443,7 @@ func (m *Machine) checkAssert(c *Term, id int, msg string) {
 		return
 	}
 	nc := m.tt.Not(c)
-	r, model := m.sol.ModelWith(m.pathVars, nc)
+	r, model := m.model(m.pathVars, nc)
 	switch r {
 	case Unsat:
 		m.assertsProved++
@@ -447,7 +454,7 @@ func (m *Machine) checkAssert(c *Term, id int, msg string) {
 	}
 	// continue under the assertion (if possible)
 	if !c.IsConst() {
-		if m.sol.CheckWith(c) == Unsat {
+		if m.check(c) == Unsat {
 			panic(pathAbort{"infeasible", "assertion never holds on this path"})
 		}
 		m.assume(c)
@@ -490,7 +497,7 @@ func (m *Machine) assertSameLogs(a, b, id int) {
 	st, diff := m.logsDiffer(m.logs[a], m.logs[b])
 	if st != "" {
 		// the path condition is satisfiable by construction; any model is a counterexample
-		r, model := m.sol.ModelWith(m.pathVars)
+		r, model := m.model(m.pathVars)
 		if r == Sat {
 			m.recordFailure(id, "logs-structure", st, model)
 		} else {
@@ -503,7 +510,7 @@ func (m *Machine) assertSameLogs(a, b, id int) {
 		m.assertsProved++
 		return
 	}
-	r, model := m.sol.ModelWith(m.pathVars, diff)
+	r, model := m.model(m.pathVars, diff)
 	switch r {
 	case Unsat:
 		m.assertsProved++
